@@ -161,7 +161,8 @@ def rule_e(repo, chk):
                 rets = [x for x in stmts_in(d, ast.Return)]
                 return bool(rets) and all(x.value is not None and full_resolution(d, x.value, depth + 1) for x in rets)
         if isinstance(e, ast.Attribute) and e.attr == 'st_mtime':
-            return True
+            # the time of the FILE (os.stat follows links as getmtime does), not of a link to it (lstat)
+            return isinstance(e.value, ast.Call) and norm(e.value.func) in ('os.stat', 'stat') and not any(k.arg == 'follow_symlinks' for k in e.value.keywords)
         return False
     for fn in defs:
         rets = stmts_in(fn, ast.Return)
@@ -185,6 +186,8 @@ def rule_e(repo, chk):
     trunc = 0
     for mod in repo.modules.values():
         for x in ast.walk(mod.tree):
+            if isinstance(x, ast.Call) and norm(x.func) in ('os.lstat', 'lstat') and mod.name == 'jedi.file_io':
+                chk.ob('C09.e', False, x, 'the time stamp of a link instead of the file it points to: `%s`' % short(x), key='%s|lstat|%s' % (mod.name, norm(x)))
             if isinstance(x, ast.Attribute) and x.attr in ('ST_MTIME', 'st_mtime_ns') or isinstance(x, ast.Name) and x.id == 'ST_MTIME':
                 chk.ob('C09.e', False, x, 'modification time read through `%s` (whole seconds / a different unit than parso compares with)' % short(x),
                        key='%s|trunc|%s' % (mod.name, norm(x)))
